@@ -13,7 +13,7 @@ def describe(tier):
                  "count of the common value in the dense model equals the maximum count; (b) every resulting state == the harness-built twin with the same (shape, common, "
                  "dense), both ways, and != returns exactly (not ==) without raising; after the search all pairs of reached states inside each shape bucket (neighbour pairs "
                  "where a bucket is large: same dense with different common, same common with dense differing in one cell, reflexive pairs with opposite insertion order) "
-                 "satisfy a == b iff the triples coincide; comparison with non-indexes is False. Plus (a) for from_array with the common omitted over every small array x "
+                 "satisfy a == b iff the triples coincide (and ALL pairs of the indexes of shape (3,), (4,), (3,2) over a small alphabet and every common); comparison with non-indexes is False. Plus (a) for from_array with the common omitted over every small array x "
                  "mapping (none, permutation, two many-to-one, all-to-one) x counts (None, exact), and for shift_common()/filtered/append/collapsed on every array of the larger shapes "
                  "(3,2), (4,2), (2,3), (5,), (4,) that the quick state graph does not contain." % d["rule"][:160])
     return d
@@ -120,11 +120,27 @@ def normalisation_family(res, tier):
     return viol, {"normalisation_cases_on_larger_shapes": n}
 
 
+def equality_family(res, tier):
+    """C15b beyond the quick state graph's two rows: EVERY pair of indexes of shape (3,), (4,) over three values and (3, 2) over two, every common value
+    (so: equal key sets whose row ids are distributed differently, equal concatenations, one entry moved ...): a == b iff the triples coincide."""
+    from .. import models as M
+
+    keys = []
+    for shape, vals, commons in (((3,), (0, 1, 2), (0, 1, 2, 3)), ((4,), (0, 1, 2), (0, 1, 3)), ((3, 2), (0, 1), (0, 1, 2))):
+        for a in M.all_arrays(shape, vals):
+            for c in commons:
+                keys.append(hist.key_from_dense(a, c))
+    viol, n = hist.pair_checks(keys, "quick")
+    return viol, {"equality_pairs_on_three_and_four_row_indexes": n}
+
+
 def extras(res, tier):
     v1, c1 = from_array_family(res, tier)
     v2, c2 = normalisation_family(res, tier)
+    v3, c3 = equality_family(res, tier)
     c1.update(c2)
-    return v1 + v2, c1
+    c1.update(c3)
+    return v1 + v2 + v3, c1
 
 
 def main(tier, all_violations=False, t0=None):
